@@ -14,9 +14,20 @@ For every built-in pass P and generated model M the monitors check, on the real 
 Every pass is also run under functionalize() (analysis passes and whole compositions included), and, once a
 pass has settled, ONE more pattern is planted and the pass applied again (one_item_at_fixpoint): what the pass
 does with a single opportunity - in particular declining it behind a guard - is then judged on its own.
+  calls        no pass result (of any application: first, fixpoint rounds, items at the fixpoint, compositions,
+               sessions) contains a node calling a model-local function - (domain, op_type, overload) was a key
+               of model.functions before the application - that the model no longer defines: such a model is
+               damaged (a name needed for serialisation into a self-contained model is gone). Judged in every
+               graph, including the bodies of functions that are not reachable from the main graph.
+  sessions     ONE pass (or composition) instance is applied again and again: to several models in turn (one of
+               them a twin of another whose functions have the same identifiers but other bodies) and to the same
+               model after edits; every application is judged on the clauses above, and a model on which the
+               instance reported no modification must still be a fixpoint when the instance comes back to it.
 """
 
 from __future__ import annotations
+
+import random
 
 import numpy as np
 import onnx
@@ -34,9 +45,13 @@ RULE = ("a case = (generated model with pass bait: Identity/Constant nodes, dupl
         "names, optional trailing outputs, Identity outputs knowing more/less type and shape than their inputs, "
         "a producer placed after its consumer in ONE graph (main / nested in main / function body / nested in a "
         "function body - single items at the pass's fixpoint are stratified over these scope classes), "
-        "inner scopes whose values share a name with a value of an enclosing graph) x one built-in pass (all 19, "
+        "inner scopes whose values share a name with a value of an enclosing graph, model-local functions calling "
+        "each other (acyclic) from their bodies and nested graphs with some functions not reachable from the main "
+        "graph) x one built-in pass (all 19, "
         "plain or under functionalize(), analysis passes included) or a Sequential/PassManager composition "
-        "(members and/or the whole composition under functionalize()), "
+        "(members and/or the whole composition under functionalize()), or a SESSION: one pass/composition instance "
+        "applied 4-8 times to up to three models in turn (a model, its twin with other function bodies, an "
+        "unrelated model) with edits in between, "
         "with or without an injected fault at the ONNX boundary; non-trivial = the pass reported modified=True at "
         "least once or a fault was injected; distinct = (pass, hash of serialized model)")
 ASSUMPTIONS = [
@@ -47,7 +62,24 @@ ASSUMPTIONS = [
     "a PassError raised by PassBase's own in_place enforcement (anywhere in the cause chain) is the identity clause failing",
     "clones share tensors by design: the OWN name of a tensor held by a node attribute of the input changing through a copy is report-only",
     "value names may collide ACROSS scopes in generated models (the IR permits it; passes guard their renames against it)",
+    "a node whose (domain, op_type, overload) is a key of model.functions is a call to that model-local function",
+    "passes are deterministic: a model on which an instance reported no modification (and changed nothing) is still a "
+    "fixpoint of that instance later, whatever the instance was applied to in between",
+    "a reused instance behaving differently from a fresh instance with the same parameters is report-only (the statement "
+    "only promises the clauses above for every application)",
 ]
+
+def _inline_criteria(r):
+    """None (inline every call) most of the time; otherwise a deterministic predicate on the function"""
+    k = r.random()
+    if k < 0.65:
+        return None
+    if k < 0.8:
+        return lambda f: sum(map(ord, f.name)) % 2 == 0   # by name
+    if k < 0.9:
+        return lambda f: len(f.inputs) <= 1                 # by signature
+    return lambda f: sum(1 for _ in f) <= 2                  # by body size (the pass rewrites kept bodies)
+
 
 PASS_FACTORIES = {
     "AddDefaultAttributesPass": lambda r: P.AddDefaultAttributesPass(),
@@ -58,7 +90,7 @@ PASS_FACTORIES = {
     "DeduplicateHashedInitializersPass": lambda r: P.DeduplicateHashedInitializersPass(size_limit=r.choice([1, 64, 4 * 1024**3])),
     "DeduplicateInitializersPass": lambda r: P.DeduplicateInitializersPass(size_limit=r.choice([1, 64, 1024])),
     "IdentityEliminationPass": lambda r: P.IdentityEliminationPass(),
-    "InlinePass": lambda r: P.InlinePass(),
+    "InlinePass": lambda r: P.InlinePass(criteria=_inline_criteria(r)),
     "LiftConstantsToInitializersPass": lambda r: P.LiftConstantsToInitializersPass(lift_all_constants=r.random() < 0.5, size_limit=r.choice([0, 16])),
     "LiftSubgraphInitializersToMainGraphPass": lambda r: P.LiftSubgraphInitializersToMainGraphPass(),
     "NameFixPass": lambda r: P.NameFixPass(),
@@ -87,8 +119,16 @@ def plan(tier: str) -> dict:
                    "at_fixpoint_scope:function": 50 if quick else 1000,
                    "at_fixpoint_scope:function_nested": 40 if quick else 800,
                    "at_fixpoint_item_scope:disorder@function_nested": 3 if quick else 60,
-                   "at_fixpoint_modified_true:TopologicalSortPass": 20 if quick else 400})
-    return {"cases": 2600 if quick else 60000, "shards": 16, "budget_s": 40 if quick else 560,
+                   "at_fixpoint_modified_true:TopologicalSortPass": 20 if quick else 400,
+                   # the call clause was decided non-vacuously: the application removed model-local functions
+                   "calls_judged_functions_removed": 40 if quick else 800,
+                   "calls_judged_functions_removed_local_calls_remain": 8 if quick else 150,
+                   "models_with_bait:unreachable_function_calls_reachable_function": 40 if quick else 800,
+                   "at_fixpoint_item:fncall": 60 if quick else 1200,
+                   "session_applications": 600 if quick else 12000,
+                   "session_returns_to_settled_model_after_other_model": 60 if quick else 1200,
+                   "session_twin_applications": 100 if quick else 2000})
+    return {"cases": 3000 if quick else 60000, "shards": 16, "budget_s": 40 if quick else 560,
             "floors": floors, "min_nontrivial": 100}
 
 
@@ -139,6 +179,146 @@ def scope_classes(model) -> dict:
         for sg in nested_graphs_of(f.graph):
             out.setdefault(id(sg), "function_nested")
     return out
+
+
+# ---- model-local functions: who calls whom ------------------------------------------------------------
+def _fkey(f):
+    return (f.domain, f.name, f.overload)
+
+
+def _nkey(n):
+    return (n.domain, n.op_type, n.overload)
+
+
+def owners(model) -> dict:
+    """id(graph) -> the Function whose body the graph is (or is nested in); None on the main-graph side"""
+    out = {id(model.graph): None}
+    for sg in nested_graphs_of(model.graph):
+        out.setdefault(id(sg), None)
+    for f in model.functions.values():
+        out.setdefault(id(f.graph), f)
+        for sg in nested_graphs_of(f.graph):
+            out.setdefault(id(sg), f)
+    return out
+
+
+def _calls_in(g, keys) -> set:
+    """keys (of model-local functions) called by the nodes of g at any depth"""
+    out = set()
+    for gg in [g] + nested_graphs_of(g):
+        for n in gg:
+            if _nkey(n) in keys:
+                out.add(_nkey(n))
+    return out
+
+
+def reach(model, roots) -> set:
+    """keys of the model-local functions reachable (through calls, transitively) from the given keys, roots included"""
+    keys = set(model.functions)
+    seen, stack = set(), [k for k in roots if k in keys]
+    while stack:
+        k = stack.pop()
+        if k in seen:
+            continue
+        seen.add(k)
+        stack.extend(_calls_in(model.functions[k].graph, keys) - seen)
+    return seen
+
+
+def reachable_from_main(model) -> set:
+    return reach(model, _calls_in(model.graph, set(model.functions)))
+
+
+def may_call(model, owner, callee_key) -> bool:
+    """a call to callee from a graph owned by `owner` keeps the call graph acyclic"""
+    return owner is None or _fkey(owner) not in reach(model, [callee_key])
+
+
+def add_call(model, g, owner, f, vis, gen, p_output=0.0):
+    """a node of g calling the model-local function f (inputs among vis, the values of g itself)"""
+    rng = gen.rng
+    ins = [(rng.choice(vis) if (vis and rng.random() < 0.85) else None) for _ in f.inputs]
+    attrs = [ir.AttrInt64("fparam", 2)] if ("fparam" in f.attributes and rng.random() < 0.5) else []
+    call = ir.Node(f.domain, f.name, ins, attrs, overload=f.overload,
+                   outputs=[gen.value(typed=False) for _ in f.outputs], name=gen.fresh("call"))
+    g.append(call)
+    if call.outputs and rng.random() < p_output:
+        g.outputs.append(call.outputs[0])
+    (owner if owner is not None else model.graph).opset_imports.setdefault(f.domain, 1)
+    return call
+
+
+def grow_functions(model, gen: gen_ir.IRGen, rich: bool) -> None:
+    """More model-local functions, and calls BETWEEN them (a function calls only functions that precede it
+    in model.functions, from its body or a graph nested in it): whether a function is reachable from the
+    main graph is then decided by the calls bait() plants in the main graph afterwards."""
+    rng = gen.rng
+    main_ver = model.graph.opset_imports.get("")
+    for _ in range(rng.randint(1, 3) if rich else (1 if rng.random() < 0.25 else 0)):
+        f = gen.function()
+        if _fkey(f) not in model.functions:
+            model.functions[_fkey(f)] = f
+    fs = list(model.functions.values())
+    if main_ver:
+        for f in fs:  # the inliner refuses bodies whose opset versions differ from the caller's
+            if rng.random() < (0.9 if rich else 0.6):
+                f.opset_imports[""] = main_ver
+    for i, caller in enumerate(fs):
+        for callee in fs[:i]:
+            if rng.random() < (0.5 if rich else 0.3):
+                below = nested_graphs_of(caller.graph)
+                g = rng.choice(below) if (below and rng.random() < 0.3) else caller.graph
+                vis = list(g.inputs) + list(g.initializers.values()) + [o for n in g for o in n.outputs if o.name]
+                add_call(model, g, caller, callee, vis, gen, p_output=0.4)
+                gen.features.add("bait:function_calls_function")
+                if g is not caller.graph:
+                    gen.features.add("bait:function_calls_function_from_nested_graph")
+
+
+def function_reach_features(model) -> set:
+    keys = set(model.functions)
+    if not keys:
+        return set()
+    live = reachable_from_main(model)
+    out = set()
+    if keys - live:
+        out.add("bait:unreachable_function")
+    for k in keys - live:
+        called = _calls_in(model.functions[k].graph, keys)
+        if called & live:
+            out.add("bait:unreachable_function_calls_reachable_function")
+    for k in live:
+        if _calls_in(model.functions[k].graph, keys):
+            out.add("bait:reachable_function_calls_function")
+    return out
+
+
+def dangling_calls(model, keys_before) -> list:
+    """(scope class, node) of every node of the model - main graph, function bodies whether reachable or
+    not, nested graphs - that calls a function which was defined before and is not defined any more."""
+    missing = set(keys_before) - set(model.functions)
+    if not missing:
+        return []
+    cls_of = scope_classes(model)
+    return [(cls_of.get(id(g), "main"), n) for g in all_graphs(model) for n in g if _nkey(n) in missing]
+
+
+def judge_calls(ctx, keys_before, out, sig, where, viol) -> bool:
+    """the call clause for ONE pass result; True = a violation was reported"""
+    ctx.count("calls_judged")
+    if set(keys_before) - set(out.functions):
+        ctx.count("calls_judged_functions_removed")
+        if any(_nkey(n) in out.functions for g in all_graphs(out) for n in g):
+            ctx.count("calls_judged_functions_removed_local_calls_remain")
+    d = dangling_calls(out, keys_before)
+    if not d:
+        return False
+    classes = [c for c in SCOPE_CLASSES if any(c == x for x, _ in d)]
+    cls, n = next((c, n) for c, n in d if c == classes[0])
+    viol(f"dangling-function-call|{sig}|caller={classes[0]}",
+         f"{where}: {len(d)} node(s) call a model-local function that was defined before the pass and is not "
+         f"defined after it, e.g. node {n.name!r} in a {cls} graph calls {_nkey(n)}; functions left: {sorted(map(str, out.functions))[:6]}"[:1200])
+    return True
 
 
 def plant_scope(g, vis, gen: gen_ir.IRGen):
@@ -212,7 +392,7 @@ def plant_name_clash(g, planted, gen: gen_ir.IRGen) -> int:
     return done
 
 
-ITEM_KINDS = ("identity", "dup", "constant", "unused", "optout", "dupinit", "inout", "disorder")
+ITEM_KINDS = ("identity", "dup", "constant", "unused", "optout", "dupinit", "inout", "disorder", "fncall", "callfn", "uncall")
 # the kind of planted pattern each pass is about (used when ONE item is planted at the pass's fixpoint)
 RELEVANT_ITEMS = {
     "IdentityEliminationPass": ("identity",),
@@ -225,6 +405,9 @@ RELEVANT_ITEMS = {
     "AddInitializersToInputsPass": ("dupinit",),
     "RemoveInitializersFromInputsPass": ("dupinit",),
     "TopologicalSortPass": ("disorder",),
+    "InlinePass": ("fncall", "fncall", "callfn", "uncall"),
+    "RemoveUnusedFunctionsPass": ("fncall", "fncall", "callfn", "uncall"),
+    "RemoveUnusedOpsetsPass": ("fncall", "callfn", "uncall"),
 }
 
 
@@ -345,6 +528,71 @@ def plant_item(model, g, vis, gen: gen_ir.IRGen, kind: str, planted: list) -> No
             vis.extend([a.outputs[0], b.outputs[0]])
             planted.append(b.outputs[0])
             gen.features.add("bait:disorder_new_pair")
+    elif kind == "fncall":
+        # a NEW model-local function h (which may itself call a function the model already has), called
+        # from g and, sometimes, from graphs of other scope classes as well (the main graph, bodies of
+        # functions that nothing calls ...); the call graph stays acyclic
+        owner_of = owners(model)
+        owner = owner_of.get(id(g))
+        scope = owner if owner is not None else main
+        ver = scope.opset_imports.get("") or main.opset_imports.get("") or 18
+        if rng.random() < 0.12:
+            ver = 17 if ver != 17 else 18  # a body the inliner must refuse
+        x = gen.value()
+        cur, nodes = x, []
+        for _ in range(rng.randint(1, 2)):
+            nodes.append(ir.Node("", rng.choice(["Abs", "Neg", "Relu"]), [cur], outputs=[gen.value()]))
+            cur = nodes[-1].outputs[0]
+        imports = {"": ver}
+        callable_ = [f for f in model.functions.values() if may_call(model, owner, _fkey(f))]
+        inner = rng.choice(callable_) if (callable_ and rng.random() < 0.4) else None
+        overload = rng.choice(["", "ovl"]) if (model.ir_version or 0) >= 10 else ""
+        h = ir.Function("custom.domain", gen.fresh("fn"), overload,
+                        graph=ir.Graph([x], [cur], nodes=nodes, opset_imports=imports, name=rng.choice([None, gen.fresh("fbody")])),
+                        attributes=[])
+        if inner is not None:
+            add_call(model, h.graph, h, inner, [x, cur], gen, p_output=0.5)
+            gen.features.add("bait:planted_function_calls_function")
+        model.functions[_fkey(h)] = h
+        # (a new output of a function BODY would change the signature its existing callers rely on)
+        call = add_call(model, g, owner, h, vis, gen, p_output=0.0 if is_fn else 0.5)
+        vis.extend(call.outputs)
+        planted.extend(call.outputs)
+        # further call sites, each in a graph of another scope class
+        cls_of = scope_classes(model)
+        here = cls_of.get(id(g), "main")
+        for cls in SCOPE_CLASSES:
+            if cls == here or rng.random() < 0.45:
+                continue
+            cands = [g2 for g2 in all_graphs(model) if cls_of.get(id(g2)) == cls and owner_of.get(id(g2), h) is not h
+                     and may_call(model, owner_of.get(id(g2)), _fkey(h))]
+            if cands:
+                g2 = rng.choice(cands)
+                vis2 = list(g2.inputs) + list(g2.initializers.values()) + [o for n in g2 for o in n.outputs if o.name]
+                add_call(model, g2, owner_of.get(id(g2)), h, vis2, gen,
+                         p_output=0.0 if any(f.graph is g2 for f in model.functions.values()) else 0.3)
+                gen.features.add("bait:planted_function_called_from_several_scopes")
+    elif kind == "callfn":
+        # one more call to a function the model ALREADY has (it may have been unreachable so far)
+        owner = owners(model).get(id(g))
+        callable_ = [f for f in model.functions.values() if may_call(model, owner, _fkey(f))]
+        if callable_:
+            call = add_call(model, g, owner, rng.choice(callable_), vis, gen, p_output=0.0 if is_fn else 0.5)
+            vis.extend(call.outputs)
+            planted.extend(call.outputs)
+            gen.features.add("bait:existing_function_called_again")
+    elif kind == "uncall":
+        # a call to a model-local function is taken out (its outputs are not used): the function may
+        # become unreachable from where it was reachable before
+        keys = set(model.functions)
+        cands = [n for gg in all_graphs(model) for n in gg
+                 if _nkey(n) in keys and not any(o.uses() or o.is_graph_output() for o in n.outputs)]
+        here = [n for n in cands if n.graph is g]
+        if cands:
+            n = rng.choice(here) if (here and rng.random() < 0.6) else rng.choice(cands)
+            n.graph.remove(n, safe=True)
+            vis[:] = [v for v in vis if not any(v is o for o in n.outputs)]
+            gen.features.add("bait:function_call_removed")
     else:
         raise ValueError(kind)
 
@@ -429,9 +677,11 @@ class _ExecFeatures:
         self.features = set(features)
 
 
-def build(ctx, case):
+def build(ctx, case, force_ir=False, fn_rich=False):
+    """force_ir: a gen_ir model whatever the draw says (the harness can edit those); fn_rich: more
+    model-local functions calling each other (workload of the passes that are about functions)."""
     rng = ctx.rng(case)
-    if rng.random() < 0.3:
+    if rng.random() < 0.3 and not force_ir:
         # checker-valid, executable models (vfpy/gen_exec.py): the ONNX checker and shape inference
         # succeed on these, so the success paths of the analysis passes are exercised as well
         from vfpy import gen_exec
@@ -442,11 +692,26 @@ def build(ctx, case):
     ctx.count("models_from_gen_ir")
     gen = gen_ir.IRGen(rng, max_depth=rng.choice([0, 1, 2]), ir_versions=(9, 10, 11))
     model = gen.model()
+    grow_functions(model, gen, fn_rich)
     gen_ir.uniquify_names(model)
     messy_names = bait(model, gen)
+    gen.features |= function_reach_features(model)
     for f in sorted(x for x in gen.features if x.startswith("bait:")):
         ctx.count("models_with_" + f)
     return model, gen, messy_names
+
+
+class _Quiet:
+    """ctx stand-in for building the twin of a model: the same random streams, nothing counted"""
+
+    def __init__(self, ctx):
+        self._ctx = ctx
+
+    def rng(self, *a):
+        return self._ctx.rng(*a)
+
+    def count(self, *a, **k):
+        pass
 
 
 # ---- predicates -------------------------------------------------------------------------------------
@@ -606,6 +871,7 @@ def judge_pass(ctx, model, pname, rng, case, fault_kind=None, messy_names=False,
     pre = snapshot.snapshot(w)
     unordered0 = unordered_graphs(model)
     unnamed0 = unnamed_used(model)
+    keys0 = set(model.functions)
     nbound = sum(1 for g in all_graphs(model) for _ in g) + len(w.values) + len(model.functions) + 2
     exc = None
     with Boundary(fault_kind) as boundary:
@@ -665,6 +931,9 @@ def judge_pass(ctx, model, pname, rng, case, fault_kind=None, messy_names=False,
     if bad:
         viol(f"links|{pname}|{'+'.join(sorted({c for c, _ in bad}))}", f"after {pname}: " + "; ".join(m for _, m in bad[:5]))
         return True
+    # calls
+    if judge_calls(ctx, keys0, out, pname, f"after {variant} {pname}", viol):
+        return True
     # flag
     b1, e1 = try_ser(out)
     if b0 is not None and b1 is None:
@@ -697,6 +966,7 @@ def judge_pass(ctx, model, pname, rng, case, fault_kind=None, messy_names=False,
         settled = errored = False
         while rounds < nbound:
             rounds += 1
+            keys_r = set(cur.functions)
             try:
                 r = p(cur)
             except Exception as e:  # noqa: BLE001
@@ -707,6 +977,8 @@ def judge_pass(ctx, model, pname, rng, case, fault_kind=None, messy_names=False,
                 settled = True
                 errored = True
                 break
+            if judge_calls(ctx, keys_r, r.model, pname, f"round {rounds + 1} of {variant} {pname}", viol):
+                return True
             nb, _ = try_ser(r.model)
             if not r.modified:
                 if prev is not None and nb is not None and nb != prev:
@@ -759,6 +1031,7 @@ def items_at_fixpoint(ctx, p, pname, variant, model, gen, viol) -> bool:
         rounds, settled = 0, False
         while rounds < nbound:
             rounds += 1
+            keys_r = set(cur.functions)
             try:
                 r = p(cur)
             except Exception as e:  # noqa: BLE001
@@ -767,6 +1040,8 @@ def items_at_fixpoint(ctx, p, pname, variant, model, gen, viol) -> bool:
                     return True
                 ctx.count("fixpoint_pass_error:" + pname)
                 return False
+            if judge_calls(ctx, keys_r, r.model, pname, f"{variant} {pname} re-settling after an item at its fixpoint", viol):
+                return True
             nb, _ = try_ser(r.model)
             if not r.modified:
                 if b is not None and nb is not None and nb != b:
@@ -805,6 +1080,7 @@ def one_item_at_fixpoint(ctx, p, pname, variant, model, g, vis, cls, gen, viol):
         ctx.count("at_fixpoint_not_serialisable")
         return "skipped", model, None
     unordered0 = unordered_graphs(model)
+    keys0 = set(model.functions)
     try:
         res = p(model)
     except Exception as e:  # noqa: BLE001
@@ -824,6 +1100,8 @@ def one_item_at_fixpoint(ctx, p, pname, variant, model, g, vis, cls, gen, viol):
     bad = invariants.check_model(res.model)
     if bad:
         viol(f"links|{pname}|{'+'.join(sorted({c for c, _ in bad}))}", f"after {pname} (one '{kind}' item in a {cls} graph at the fixpoint): " + "; ".join(m for _, m in bad[:5]))
+        return "violation", model, None
+    if judge_calls(ctx, keys0, res.model, pname, f"after {variant} {pname} (one '{kind}' item in a {cls} graph at the fixpoint)", viol):
         return "violation", model, None
     b1, e1 = try_ser(res.model)
     if b1 is None:
@@ -869,19 +1147,41 @@ def _first_proto_diff(b0, b1):
     return c14_protodiff.first_diff(b0, b1)
 
 
+def _fn_rich(rng, pnames) -> bool:
+    """more functions calling each other: most of the time for the passes that are about functions"""
+    about_functions = any("fncall" in RELEVANT_ITEMS.get(n, ()) for n in pnames)
+    return rng.random() < (0.8 if about_functions else 0.3)
+
+
 def run_case(ctx, case):
     rng = ctx.rng(case, "run")
-    model, gen, messy = build(ctx, case)
+    names = list(PASS_FACTORIES)
+    mode = rng.random()
+    if 0.25 <= mode < 0.40:
+        nontrivial, key, gen, model = judge_session(ctx, case, rng)
+        ctx.evaluation(key=key + [case], nontrivial=bool(nontrivial))
+        if case % 83 == 0 and model is not None:
+            ctx.sample({"case": case, "what": key, "features": sorted(gen.features)[:12],
+                        "nodes": sum(1 for g in all_graphs(model) for _ in g)})
+        return
+    fk = seq = pname = None
+    if mode < 0.15:
+        pname = rng.choice(sorted(ANALYSIS))
+        fk = rng.choice(["lazy_raises", "checker_raises" if pname == "CheckerPass" else "infer_raises", "lazy_raises_big"])
+        fn_rich = False
+    elif mode < 0.25:
+        seq = [rng.choice(names) for _ in range(rng.randint(2, 3))]
+        fn_rich = _fn_rich(rng, seq)
+    else:
+        pname = names[case % len(names)] if rng.random() < 0.7 else rng.choice(names)
+        fn_rich = _fn_rich(rng, [pname])
+    model, gen, messy = build(ctx, case, fn_rich=fn_rich)
     problems = iso_ir.well_scoped(model)
     if problems and not messy:
         ctx.count("skipped_not_well_scoped")
         return
-    names = list(PASS_FACTORIES)
-    mode = rng.random()
     nontrivial = False
-    if mode < 0.15:
-        pname = rng.choice(sorted(ANALYSIS))
-        fk = rng.choice(["lazy_raises", "checker_raises" if pname == "CheckerPass" else "infer_raises", "lazy_raises_big"])
+    if fk is not None:
         if fk.startswith("lazy_raises"):
             # the serialisation itself fails inside the ONNX-call helper
             add_failing_lazy_initializer(model, big=fk.endswith("big"))
@@ -892,19 +1192,256 @@ def run_case(ctx, case):
         judge_pass(ctx, model, pname, rng, case, fault_kind=fk)
         nontrivial = True
         key = [pname, fk]
-    elif mode < 0.25:
+    elif seq is not None:
         # composition: identity / flag / damage only
-        seq = [rng.choice(names) for _ in range(rng.randint(2, 3))]
         nontrivial = judge_composition(ctx, model, seq, rng, case)
         key = ["seq"] + seq
     else:
-        pname = names[case % len(names)] if rng.random() < 0.7 else rng.choice(names)
         nontrivial = judge_pass(ctx, model, pname, rng, case, messy_names=messy, gen=gen)
         key = [pname]
     ctx.evaluation(key=key + [case], nontrivial=bool(nontrivial))
     if case % 83 == 0:
         ctx.sample({"case": case, "what": key, "features": sorted(gen.features)[:12],
                     "nodes": sum(1 for g in all_graphs(model) for _ in g)})
+
+
+# ---- sessions: ONE instance, several models, edits in between ------------------------------------------
+class _Slot:
+    def __init__(self, tag, model, gen):
+        self.tag, self.model, self.gen = tag, model, gen
+        self.settled = False   # the instance's last application to this model reported no modification and nothing was edited since
+        self.alive = True
+
+
+def _session_slot(ctx, tag, case_id, fn_rich, quiet=False):
+    model, gen, messy = build(_Quiet(ctx) if quiet else ctx, case_id, force_ir=True, fn_rich=fn_rich)
+    if messy or iso_ir.well_scoped(model) or invariants.check_model(model) or try_ser(model)[0] is None:
+        return None
+    return _Slot(tag, model, gen)
+
+
+def _session_edit(ctx, slot, rel, rng) -> bool:
+    """one more pattern in a graph of a uniformly drawn scope class of the slot's model; False = the model
+    no longer satisfies the harness preconditions (the slot is given up)"""
+    model, gen = slot.model, slot.gen
+    cls_of = scope_classes(model)
+    by_cls = {}
+    for g in all_graphs(model):
+        vis = list(g.inputs) + list(g.initializers.values()) + [o for n in g for o in n.outputs if o.name]
+        if vis:
+            by_cls.setdefault(cls_of.get(id(g), "main"), []).append((g, vis))
+    if not by_cls:
+        return True
+    cls = rng.choice([c for c in SCOPE_CLASSES if c in by_cls])
+    g, vis = rng.choice(by_cls[cls])
+    k = rng.random()
+    kind = "fncall" if k < 0.25 else rng.choice(rel) if (rel and k < 0.7) else rng.choice(ITEM_KINDS)
+    planted = []
+    plant_item(model, g, vis, gen, kind, planted)
+    if rng.random() < 0.3:
+        plant_scope_and_clash(g, vis, planted, gen, p_scope=0.5, p_clash=0.8)
+    slot.settled = False
+    ctx.count("session_edits")
+    ctx.count("session_edit:" + kind)
+    ctx.count("session_edit_scope:" + cls)
+    if invariants.check_model(model) or iso_ir.well_scoped(model) or try_ser(model)[0] is None:
+        ctx.count("session_edit_precondition_broken")
+        slot.alive = False
+        return False
+    return True
+
+
+def _flip_roles(ctx, slot, rng) -> None:
+    """The twin keeps the identifiers of its original but gives them other ROLES: calls from the main graph
+    to model-local functions are taken out (where nothing uses their outputs) and functions that were not
+    reachable from the main graph get a call there."""
+    model, gen = slot.model, slot.gen
+    main = model.graph
+    keys = set(model.functions)
+    live = reachable_from_main(model)
+    flips = 0
+    for n in list(main):
+        if _nkey(n) in keys and not any(o.uses() or o.is_graph_output() for o in n.outputs) and rng.random() < 0.5:
+            main.remove(n, safe=True)
+            flips += 1
+    vis = list(main.inputs) + list(main.initializers.values()) + [o for n in main for o in n.outputs if o.name]
+    for k in sorted(keys - live, key=str):
+        if rng.random() < 0.4:
+            add_call(model, main, None, model.functions[k], vis, gen, p_output=0.3)
+            flips += 1
+    ctx.count("session_twin_role_flips", flips)
+    if flips and (invariants.check_model(model) or iso_ir.well_scoped(model) or try_ser(model)[0] is None):
+        ctx.count("session_edit_precondition_broken")
+        slot.alive = False
+
+
+def _compare_with_fresh(ctx, p, fresh, b0, sig) -> None:
+    """REPORT-ONLY: the reused instance and a fresh instance with the same parameters, each applied to its own
+    deserialised copy of the same bytes (the model under observation is not touched): a deterministic pass
+    without memory gives the same flag and the same bytes."""
+    try:
+        c1 = ir.from_proto(onnx.ModelProto.FromString(b0))
+        c2 = ir.from_proto(onnx.ModelProto.FromString(b0))
+    except Exception:  # noqa: BLE001
+        ctx.count("session_copy_failed")
+        return
+    outcome = []
+    for inst, m in ((p, c1), (fresh(), c2)):
+        try:
+            r = inst(m)
+            outcome.append((bool(r.modified), try_ser(r.model)[0]))
+        except Exception as e:  # noqa: BLE001
+            outcome.append(("raised", type(e).__name__))
+    ctx.count("session_fresh_instance_comparisons")
+    if outcome[0] != outcome[1]:
+        ctx.count(f"report_only_reused_instance_differs_from_fresh:{sig}")
+
+
+def judge_session(ctx, case, rng):
+    """ONE pass (or composition) instance, 4-8 applications over up to three models: A, a twin of A built
+    from the same random stream and then edited (same function identifiers, other bodies), and an unrelated
+    model; models are edited between applications. Every application is judged on the single-application
+    clauses; a model the instance left with modified=False must still be a fixpoint when it comes back."""
+    names = list(PASS_FACTORIES)
+    rep = {"case": case, "seed": ctx.seed, "mode": "session"}
+    viol = lambda sig, msg: ctx.violation(sig, msg, rep)  # noqa: E731
+    fresh = None
+    if rng.random() < 0.2:
+        seq = [rng.choice(names) for _ in range(rng.randint(2, 3))]
+        p, label, kind, _ = make_composition(ctx, seq, rng)
+        label = f"{type(p).__name__}({label})"
+        sig, idsig, single, rel = "composition", f"composition|{kind}", False, None
+        key = ["session", "seq"] + seq
+        fn_rich = _fn_rich(rng, seq)
+    else:
+        pname = names[case % len(names)] if rng.random() < 0.7 else rng.choice(names)
+        pseed = rng.getrandbits(32)
+        functional = rng.random() < 0.12
+        label = f"functionalize({pname})" if functional else pname
+
+        def fresh():
+            q = PASS_FACTORIES[pname](random.Random(pseed))
+            return ir.passes.functionalize(q) if functional else q
+
+        p = fresh()
+        sig, idsig, single, rel = pname, pname, True, RELEVANT_ITEMS.get(pname)
+        key = ["session", pname]
+        fn_rich = _fn_rich(rng, [pname])
+    ctx.count("sessions")
+    # the models
+    slots = []
+    base_case = None
+    for t in range(4):
+        s = _session_slot(ctx, "A", case + 100003 * t, fn_rich)
+        if s is not None:
+            base_case = case + 100003 * t
+            slots.append(s)
+            break
+    if base_case is None:
+        ctx.count("session_no_model")
+        return False, key, None, None
+    if rng.random() < 0.8:
+        twin = _session_slot(ctx, "twin", base_case, fn_rich, quiet=True)
+        if twin is not None:
+            if rng.random() < 0.6:
+                _flip_roles(ctx, twin, rng)
+            for _ in range(rng.randint(1, 2)):
+                if not twin.alive or not _session_edit(ctx, twin, rel, rng):
+                    break
+            if twin.alive:
+                slots.append(twin)
+                ctx.count("session_twins")
+    if rng.random() < 0.6:
+        other = _session_slot(ctx, "other", case + 7919, fn_rich)
+        if other is not None:
+            slots.append(other)
+    first = slots[0]
+    any_modified = False
+    last, wandered = None, False
+    for step in range(rng.randint(4, 8)):
+        live = [s for s in slots if s.alive]
+        if not live:
+            break
+        elsewhere = [s for s in live if s is not last]
+        slot = rng.choice(elsewhere) if (elsewhere and rng.random() < 0.8) else rng.choice(live)
+        if step > 0 and rng.random() < 0.4:
+            if not _session_edit(ctx, slot, rel, rng):
+                continue
+        model = slot.model
+        where = f"application {step + 1} of ONE {label} instance (to model {slot.tag!r}" + \
+            (f", after model {last.tag!r}" if last is not None and last is not slot else "") + ")"
+        b0, _ = try_ser(model)
+        keys0 = set(model.functions)
+        unordered0 = unordered_graphs(model)
+        unnamed0 = unnamed_used(model)
+        compare_when = rng.choice(["before", "after"]) if (fresh is not None and b0 is not None and rng.random() < 0.4) else None
+        if compare_when == "before":
+            _compare_with_fresh(ctx, p, fresh, b0, sig)
+            wandered = True   # the instance has been somewhere else (on a copy) in between
+        try:
+            res = p(model)
+        except Exception as e:  # noqa: BLE001
+            if _identity_pass_error_in_chain(e):
+                viol(f"identity|{idsig}|PassError", f"{where}: {e}"[:800])
+                return True, key, first.gen, first.model
+            ctx.count("session_pass_error")
+            ctx.count(f"session_pass_exc:{type(e).__name__}")
+            slot.alive = False   # the model may be half rewritten; the INSTANCE goes on
+            last, wandered = slot, False
+            continue
+        ctx.count("session_applications")
+        ctx.count("session_applied:" + (sig if single else "composition"))
+        if slot.tag == "twin":
+            ctx.count("session_twin_applications")
+        interleaved = last is not None and (last is not slot or wandered)
+        if interleaved:
+            ctx.count("session_applications_after_other_model")
+        if (res.model is model) != bool(p.in_place):
+            viol(f"identity|{idsig}", f"{where}: in_place={p.in_place} but result.model is input: {res.model is model}")
+            return True, key, first.gen, first.model
+        out = res.model
+        bad = invariants.check_model(out)
+        if bad:
+            viol(f"links|{sig}|{'+'.join(sorted({c for c, _ in bad}))}", f"{where}: " + "; ".join(m for _, m in bad[:5]))
+            return True, key, first.gen, first.model
+        if judge_calls(ctx, keys0, out, sig, where, viol):
+            return True, key, first.gen, first.model
+        b1, e1 = try_ser(out)
+        if b0 is not None and b1 is None:
+            viol(f"serialisation-broken|{sig}|{type(e1).__name__}@{raise_site(e1)}", f"{where}: model serialised before but raises after: {e1!r}"[:1200])
+            return True, key, first.gen, first.model
+        if not res.modified:
+            ctx.count("flag_false_judged")
+            ctx.count("session_flag_false_judged")
+            if b0 is not None and b1 is not None and b0 != b1:
+                d = _first_proto_diff(b0, b1)
+                viol(f"modified-false-but-changed|{sig}|{d[0]}", f"{where} reported modified=False but the serialised model changed: {d[1]}")
+                return True, key, first.gen, first.model
+        if not unordered0 and unordered_graphs(out):
+            viol(f"order-broken|{sig}", f"{where}: all graphs were topologically ordered before; some are not after it")
+            return True, key, first.gen, first.model
+        if unnamed0 == 0 and unnamed_used(out) > 0:
+            viol(f"name-lost|{sig}", f"{where}: {unnamed_used(out)} used value(s) have no name after it")
+            return True, key, first.gen, first.model
+        if single and slot.settled:
+            # this instance reported no modification (and changed nothing) on this very model before and the
+            # model was not touched since: it is in the state the convergence clause speaks of
+            between = "after-other-model" if interleaved else "immediately"
+            ctx.count("session_returns_to_settled_model_" + between.replace("-", "_"))
+            if res.modified or (b0 is not None and b1 is not None and b0 != b1):
+                viol(f"fixpoint-lost-on-reuse|{sig}|{between}",
+                     f"{where}: the instance had reported modified=False on this model and the model was not edited since, "
+                     f"now modified={res.modified}, serialised model changed: {b0 != b1}")
+                return True, key, first.gen, first.model
+        wandered = False
+        if compare_when == "after":
+            _compare_with_fresh(ctx, p, fresh, b0, sig)
+            wandered = True
+        any_modified = any_modified or bool(res.modified)
+        slot.settled = (not res.modified) and b0 is not None and b0 == b1
+        slot.model = out
+        last = slot
+    return any_modified, key, first.gen, first.model
 
 
 def _is_identity_pass_error(e) -> bool:
@@ -924,7 +1461,7 @@ def _identity_pass_error_in_chain(e) -> bool:
     return False
 
 
-def judge_composition(ctx, model, seq, rng, case):
+def make_composition(ctx, seq, rng):
     passes = []
     wrapped = []
     for n in seq:
@@ -943,11 +1480,17 @@ def judge_composition(ctx, model, seq, rng, case):
         comp = ir.passes.functionalize(comp)
         name = "f(%s)" % name
         kind = "functionalize(" + kind.split("|")[0] + ")|functional"
+    return comp, name, kind, wrapped
+
+
+def judge_composition(ctx, model, seq, rng, case):
+    comp, name, kind, wrapped = make_composition(ctx, seq, rng)
     rep = {"case": case, "seed": ctx.seed}
     cur = model
     any_modified = False
     for round_ in (1, 2):  # the second application runs at (or near) the fixpoint
         b0, _ = try_ser(cur)
+        keys0 = set(cur.functions)
         try:
             res = comp(cur)
         except Exception as e:  # noqa: BLE001
@@ -977,6 +1520,9 @@ def judge_composition(ctx, model, seq, rng, case):
         bad = invariants.check_model(res.model)
         if bad:
             ctx.violation(f"links|composition|{'+'.join(sorted({c for c, _ in bad}))}", f"after {name}: " + "; ".join(m for _, m in bad[:4]), rep)
+            return True
+        if judge_calls(ctx, keys0, res.model, "composition", f"round {round_} of {type(comp).__name__}({name})",
+                       lambda sig, msg: ctx.violation(sig, msg, rep)):
             return True
         b1, _ = try_ser(res.model)
         if not res.modified:
